@@ -60,15 +60,21 @@ Record cli_case := mk_cli_case
   { cc_args : list string                          (* the -W arguments *)
   ; cc_full : list ((priority * string) * nat)     (* every report of the in-process assembly, with its number of spans *)
   ; cc_end : event                                 (* how the in-process assembly ended *)
+  ; cc_env : cli_env                               (* what the harness arranged for the writes (all succeed, or a planted write fault) *)
   ; co_status : Z
   ; co_internal_error : bool                       (* the "unexpected internal compiler error" banner *)
   ; co_shown : shown
+  ; co_written : list nat                          (* which of the requested files (make_* 0..n-1, -o n, listing n+1) were created / changed *)
   ; co_dir_unchanged : bool
   ; co_files_exact : bool                          (* exactly the expected files appeared / changed *)
-  ; co_same_as_other_variants : bool }.            (* bytes, files, status identical across -W / format variants *)
+  ; co_same_as_other_variants : bool }.            (* bytes, files, status identical across -W / format variants (and output options) *)
 
 Definition cli_trace (c : cli_case) : list event :=
   map (fun t => Report (fst (fst t)) (snd (fst t))) (cc_full c) ++ [cc_end c].
+
+(* the reports of emit_files (second block) have one span each *)
+Definition full2 (c : cli_case) : list ((priority * string) * nat) :=
+  cc_full c ++ map (fun r => (r, 1%nat)) (reports_of (emit_trace (e_make (cc_env c)))).
 
 (* expand the delivered reports to printed lines using the span counts of the full list *)
 Fixpoint expand (full : list ((priority * string) * nat)) (deliv : list (priority * string)) : list bool :=
@@ -80,14 +86,14 @@ Fixpoint expand (full : list ((priority * string) * nat)) (deliv : list (priorit
   end.
 
 Definition corr_cli (c : cli_case) : bool :=
-  let m := cli_run (cc_args c) (cli_trace c) [] in
+  let m := cli_run (cc_args c) (cli_trace c) (cc_env c) in
   Z.eqb (c_status m) (co_status c) &&
   match co_shown c with
   | ShownGraphical l => list_eqb (fun a b => Bool.eqb (fst a) (fst b) && String.eqb (snd a) (snd b))
                                  (map (fun r => (error_severity (sev_of (fst r)), snd r)) (c_delivered m)) l
-  | ShownBare l => list_eqb Bool.eqb (expand (cc_full c) (c_delivered m)) l
+  | ShownBare l => list_eqb Bool.eqb (expand (full2 c) (c_delivered m)) l
   end &&
-  Bool.eqb (c_outputs_written m) (Z.eqb (co_status c) 0).
+  list_eqb Nat.eqb (c_written m) (co_written c).
 
 Definition shown_errors (s : shown) : list bool :=
   match s with ShownGraphical l => map fst l | ShownBare l => l end.
